@@ -8,7 +8,8 @@ PROPERTY_ID = "C11"
 RULE = ("exhaustive: every built-in name of the harness's own copy of the OData function table (33) "
         "and ~60 near-miss names (case variants, prefixes/suffixes, geo.-prefixed non-geo names, "
         "un-prefixed geo names, other namespaces) x 0..5 arguments x {positional, all-named} x 8 "
-        "argument-kind patterns (literal, field, path, list, nested call, comparison, lambda, mixed); "
+        "argument-kind patterns (literal, field, path, list, nested call, comparison, lambda, mixed); plus, for every name, "
+        "6-129 arguments (size ladder) incl. arguments that all repeat one or two literals, and names of 33-128 characters; "
         "oracle computed from the table alone: accept/reject, decoded call (name, namespace, "
         "arguments in source order, parameter names) or exception class and payload fields. "
         "Every case is non-trivial; distinct by source text.")
@@ -35,6 +36,10 @@ def arg_of(kind, i):
     if kind == "lambda":
         return ("lambda", ident("coll" + n), "any", "v",
                 ("cmp", "gt", ("path", ident("v"), "n"), ("lit", "int", n)))
+    if kind == "same-literal":
+        return ("lit", "int", "7")
+    if kind == "two-values":
+        return ("lit", "str", "ab"[i % 2])
     raise ValueError(kind)
 
 
@@ -140,6 +145,9 @@ def replay(case):
     return check_case(case)
 
 
+LARGE_N = [6, 7, 9, 16, 17, 33, 65, 129]
+
+
 def all_cases():
     for ns, name in names():
         for n in range(0, 6):
@@ -150,6 +158,21 @@ def all_cases():
                     if n == 0 and pattern != "literal":
                         continue
                     yield {"ns": list(ns), "name": name, "n": n, "style": style, "pattern": pattern}
+        # argument counts further up the size ladder, and arguments that repeat one another
+        for n in LARGE_N:
+            for style in ("positional", "named"):
+                for pattern in ("literal", "mixed", "same-literal", "two-values"):
+                    yield {"ns": list(ns), "name": name, "n": n, "style": style, "pattern": pattern}
+        for n in (2, 3, 5):
+            for pattern in ("same-literal", "two-values"):
+                yield {"ns": list(ns), "name": name, "n": n, "style": "positional", "pattern": pattern}
+    # names along the length ladder (the whole dotted token is at most 128 characters)
+    for L in (33, 61, 64, 65, 66, 100, 124, 125, 128):
+        for stem in ("contains", "f", "Z9_", "length"):
+            for ns in ((), ("geo",), ("my",)):
+                name = (stem + "x" * 200)[: L - sum(len(x) + 1 for x in ns)]
+                for n in (0, 1, 2, 5):
+                    yield {"ns": list(ns), "name": name, "n": n, "style": "positional", "pattern": "literal"}
 
 
 def plan(tier, seed, scale):
